@@ -509,38 +509,11 @@ Example prim_session :
 Proof. split; vm_compute; reflexivity. Qed.
 
 (* ------------------------------------------------------------------ *)
-(* 7. ber_check_tags with a restart context is NOT coherent             *)
+(* 7. ber_check_tags with a restart context is coherent                 *)
 
 (* U ::= [5] EXPLICIT SEQUENCE { ... }: tags [5] (context, 5*4+2) and UNIVERSAL 16 *)
 Definition u_tags : list Z := [22; 64].
 
-(* the design-round witness: a5 80 | 30 05 a7 03 02 01 05 00 00, split after 2 octets.
-   One-shot: RC_FAIL (definite length inside an indefinite chain: the C03 defect);
-   restarted: expect_00_terminators is forgotten, RC_OK *)
-Theorem chain_resumable_refuted : ~ resumable (chain_step u_tags).
-Proof.
-  intros H.
-  destruct (H chain_ctx0 [165; 128] 2%nat {| cstep := 1; cleft := None |} ltac:(vm_compute; reflexivity))
-    as [_ Hext].
-  specialize (Hext [48; 5; 167; 3; 2; 1; 5; 0; 0]). vm_compute in Hext. discriminate.
-Qed.
-
-(* on VALID BER the same loss shows in the value handed to the caller: all lengths
-   indefinite, a5 80 | 30 80 ...: one-shot leaves ctx->left = -2 (two end-of-contents
-   pairs to eat), restarted leaves -1, so the caller stops 2 octets early *)
-Theorem chain_resumable_refuted_valid_ber :
-  chain_step u_tags chain_ctx0 [165; 128] = (MORE, 2%nat, {| cstep := 1; cleft := None |}) /\
-  chain_step u_tags chain_ctx0 ([165; 128] ++ [48; 128; 167; 3; 2; 1; 5; 0; 0; 0; 0])
-    = (OK, 4%nat, {| cstep := 2; cleft := Some (-2) |}) /\
-  shift 2 (chain_step u_tags {| cstep := 1; cleft := None |} (skipn 2 [165; 128] ++ [48; 128; 167; 3; 2; 1; 5; 0; 0; 0; 0]))
-    = (OK, 4%nat, {| cstep := 2; cleft := Some (-1) |}).
-Proof. repeat split; vm_compute; reflexivity. Qed.
-
-Theorem chain_coherent_refuted : exists tags, ~ coherent (chain_step tags).
-Proof. exists u_tags. intros [H _]. exact (chain_resumable_refuted H). Qed.
-
-(* the provable part: a chain of one tag (no EXPLICIT tag on the constructed
-   type) never reports partial consumption on RC_WMORE, and is coherent *)
 Lemma chain_iter_ext tag w limit exp00 more :
   match chain_iter tag w limit exp00 with
   | IMore => True
@@ -566,29 +539,212 @@ Proof.
     destruct (limit =? len + Z.of_nat (n1 + n2)); reflexivity.
 Qed.
 
-Theorem chain_coherent_partial tag : coherent (chain_step [tag]).
+(* what one successful iteration says about its results: the header lies inside
+   the window, and a known limit shrinks by exactly the header *)
+Lemma chain_iter_next tag w limit e l' e' len adv :
+  chain_iter tag w limit e = INext l' e' len adv ->
+  (adv <= length w)%nat /\ (limit = -1 \/ l' = limit - Z.of_nat adv).
+Proof.
+  unfold chain_iter. destruct w as [|b0 tl]; [discriminate|].
+  destruct (fetch_tag (b0 :: tl)) as [tg n1| |] eqn:Eft; [|discriminate|discriminate].
+  destruct (negb (tg =? tag)); [discriminate|].
+  destruct (negb ((b0 / 32) mod 2 =? 1)); [discriminate|].
+  apply fetch_tag_consumed in Eft.
+  destruct (fetch_length ((b0 / 32) mod 2 =? 1) (skipn n1 (b0 :: tl))) as [ln n2| |] eqn:Efl;
+    [|discriminate|discriminate].
+  apply fetch_length_le in Efl. rewrite skipn_length in Efl.
+  destruct (ln =? -1).
+  - destruct (limit =? -1) eqn:El; [|discriminate].
+    intros H. injection H as <- <- <- <-. split; [lia|]. left. lia.
+  - destruct (negb (e =? 0)); [discriminate|].
+    destruct (limit =? -1) eqn:El.
+    + intros H. injection H as <- <- <- <-. split; [lia|]. left. lia.
+    + destruct (limit =? ln + Z.of_nat (n1 + n2)); [|discriminate].
+      intros H. injection H as <- <- <- <-. split; [lia|]. right. reflexivity.
+Qed.
+
+Lemma trunc_neg1 w : trunc (-1) w = w.
+Proof. reflexivity. Qed.
+
+Lemma trunc_length limit w : (length (trunc limit w) <= length w)%nat.
+Proof.
+  unfold trunc. destruct ((0 <=? limit) && (limit <? zlen w)); [|lia].
+  rewrite firstn_length. lia.
+Qed.
+
+(* more input behind a window that is cut to the limit: more input behind the cut *)
+Lemma trunc_app limit w more : exists m', trunc limit (w ++ more) = trunc limit w ++ m'.
+Proof.
+  unfold trunc. rewrite zlen_app. pose proof (zlen_nonneg more). unfold zlen in *.
+  destruct ((0 <=? limit) && (limit <? Z.of_nat (length w))) eqn:E1.
+  - assert (E2 : (0 <=? limit) && (limit <? Z.of_nat (length w) + Z.of_nat (length more)) = true) by lia.
+    rewrite E2. exists []. rewrite app_nil_r. apply firstn_app_le. lia.
+  - destruct ((0 <=? limit) && (limit <? Z.of_nat (length w) + Z.of_nat (length more))) eqn:E2.
+    + exists (firstn (Z.to_nat limit - length w) more).
+      rewrite firstn_app. f_equal. apply firstn_all2. lia.
+    + exists more. reflexivity.
+Qed.
+
+(* the cut of the next iteration does not depend on the cut of this one *)
+Lemma trunc_skipn_firstn (L adv : nat) (w : list Z) (l' : Z) :
+  (L < length w)%nat -> (adv <= L)%nat -> l' = Z.of_nat (L - adv) ->
+  trunc l' (skipn adv (firstn L w)) = trunc l' (skipn adv w).
+Proof.
+  intros HL Hadv ->. rewrite skipn_firstn_comm.
+  unfold trunc, zlen. rewrite firstn_length, !skipn_length.
+  assert (E1 : (0 <=? Z.of_nat (L - adv)) && (Z.of_nat (L - adv) <? Z.of_nat (Nat.min (L - adv) (length w - adv))) = false) by lia.
+  assert (E2 : (0 <=? Z.of_nat (L - adv)) && (Z.of_nat (L - adv) <? Z.of_nat (length w - adv)) = true) by lia.
+  rewrite E1, E2, Nat2Z.id. reflexivity.
+Qed.
+
+Lemma iter_trunc tag w limit e l' e' len adv :
+  chain_iter tag (trunc limit w) limit e = INext l' e' len adv ->
+  (adv <= length w)%nat /\ trunc l' (skipn adv (trunc limit w)) = trunc l' (skipn adv w).
+Proof.
+  intros H. destruct (chain_iter_next _ _ _ _ _ _ _ _ H) as [Hadv Hl].
+  pose proof (trunc_length limit w) as Htl. split; [lia|].
+  revert Hadv. unfold trunc at 1 3.
+  destruct ((0 <=? limit) && (limit <? zlen w)) eqn:E; [|reflexivity].
+  intros Hadv. destruct Hl as [Hl|Hl]; [lia|].
+  unfold zlen in E. rewrite firstn_length in Hadv.
+  apply trunc_skipn_firstn; lia.
+Qed.
+
+Lemma skipn_add {A} (a b : nat) : forall l : list A, skipn (a + b) l = skipn b (skipn a l).
+Proof.
+  induction a as [|a IH]; intros l; [reflexivity|].
+  destruct l as [|x l]; [cbn; destruct b; reflexivity|]. cbn [Nat.add skipn]. apply IH.
+Qed.
+
+(* the loop as seen from outside: the rest of the window before the cut *)
+Definition chain_from (tags : list Z) (w : list Z) (limit e last : Z) (step consumed : nat) :=
+  chain_loop tags (trunc limit w) limit e last step consumed.
+
+Lemma chain_from_cons tag tags w limit e last step consumed :
+  chain_from (tag :: tags) w limit e last step consumed =
+  match chain_iter tag (trunc limit w) limit e with
+  | IMore => (MORE, consumed, {| cstep := step; cleft := limit; cctx := e |})
+  | IFail => (FAIL, consumed, {| cstep := step; cleft := limit; cctx := e |})
+  | INext l' e' len adv => chain_from tags (skipn adv w) l' e' len (S step) (consumed + adv)%nat
+  end.
+Proof.
+  unfold chain_from. cbn [chain_loop].
+  destruct (chain_iter tag (trunc limit w) limit e) as [l' e' len adv| |] eqn:Ei; [|reflexivity|reflexivity].
+  destruct (iter_trunc _ _ _ _ _ _ _ _ Ei) as [_ ->]. reflexivity.
+Qed.
+
+(* the same iteration on a longer window *)
+Lemma chain_iter_app tag w limit e more :
+  match chain_iter tag (trunc limit w) limit e with
+  | IMore => True
+  | r => chain_iter tag (trunc limit (w ++ more)) limit e = r
+  end.
+Proof.
+  destruct (trunc_app limit w more) as [m' ->]. apply chain_iter_ext.
+Qed.
+
+Lemma chain_from_shift : forall tags w limit e last step consumed,
+  chain_from tags w limit e last step consumed = shift consumed (chain_from tags w limit e last step O).
+Proof.
+  induction tags as [|tag tags IH]; intros w limit e last step consumed.
+  - unfold chain_from. cbn [chain_loop shift]. rewrite Nat.add_0_r. reflexivity.
+  - rewrite !chain_from_cons.
+    destruct (chain_iter tag (trunc limit w) limit e) as [l' e' len adv| |];
+      [|cbn [shift]; rewrite Nat.add_0_r; reflexivity|cbn [shift]; rewrite Nat.add_0_r; reflexivity].
+    rewrite (IH _ _ _ _ _ (consumed + adv)%nat), (IH _ _ _ _ _ (0 + adv)%nat).
+    rewrite shift_shift. reflexivity.
+Qed.
+
+(* RC_OK and RC_FAIL do not change when more input arrives *)
+Lemma chain_from_final : forall tags w limit e last step consumed r k c',
+  chain_from tags w limit e last step consumed = (r, k, c') -> r <> MORE ->
+  forall more, chain_from tags (w ++ more) limit e last step consumed = (r, k, c').
+Proof.
+  induction tags as [|tag tags IH]; intros w limit e last step consumed r k c' H Hr more.
+  - exact H.
+  - rewrite chain_from_cons in *.
+    pose proof (chain_iter_app tag w limit e more) as He.
+    destruct (chain_iter tag (trunc limit w) limit e) as [l' e' len adv| |] eqn:Ei.
+    + rewrite He. destruct (iter_trunc _ _ _ _ _ _ _ _ Ei) as [Hadv _].
+      rewrite skipn_app_le by exact Hadv. eapply IH; eassumption.
+    + injection H as <- _ _. congruence.
+    + rewrite He. exact H.
+Qed.
+
+(* RC_WMORE after j tags and a octets: on a longer window the loop reaches the
+   same point with the locals that were saved, and goes on from there *)
+Lemma chain_from_more : forall tags w limit e last step consumed k c',
+  chain_from tags w limit e last step consumed = (MORE, k, c') ->
+  exists j a, k = (consumed + a)%nat /\ (a <= length w)%nat /\ cstep c' = (step + j)%nat /\
+    (j = O -> a = O /\ cleft c' = limit /\ cctx c' = e) /\
+    forall more, chain_from tags (w ++ more) limit e last step consumed =
+                 chain_from (skipn j tags) (skipn a w ++ more) (cleft c') (cctx c') 0 (step + j) k.
+Proof.
+  induction tags as [|tag tags IH]; intros w limit e last step consumed k c' H.
+  - discriminate.
+  - rewrite chain_from_cons in H.
+    destruct (chain_iter tag (trunc limit w) limit e) as [l' e' len adv| |] eqn:Ei.
+    + destruct (iter_trunc _ _ _ _ _ _ _ _ Ei) as [Hadv _].
+      destruct (IH _ _ _ _ _ _ _ _ H) as (j & a & Hk & Ha & Hs & _ & Hext).
+      rewrite skipn_length in Ha.
+      exists (S j), (adv + a)%nat. repeat split; try lia.
+      intros more. rewrite chain_from_cons.
+      pose proof (chain_iter_app tag w limit e more) as He. rewrite Ei in He. rewrite He.
+      rewrite skipn_app_le by exact Hadv. rewrite Hext.
+      cbn [skipn]. replace (S step + j)%nat with (step + S j)%nat by lia.
+      rewrite skipn_add. reflexivity.
+    + injection H as <- <-. exists O, O. cbn [cstep cleft cctx skipn]. rewrite !Nat.add_0_r.
+      repeat split; try lia.
+    + discriminate.
+Qed.
+
+Lemma chain_step_from tags c w :
+  chain_step tags c w =
+  match cstep c with
+  | O => chain_from tags w (-1) 0 0 O O
+  | S _ => chain_from (skipn (cstep c) tags) w (cleft c) (cctx c) 0 (cstep c) O
+  end.
+Proof. unfold chain_step, chain_from. destruct (cstep c); reflexivity. Qed.
+
+(* C05 for the chain of tags of any constructed type: whatever the number of
+   EXPLICIT tags, definite or indefinite lengths *)
+Theorem chain_coherent tags : coherent (chain_step tags).
 Proof.
   split.
-  - intros c p k c' H. unfold chain_step in *.
-    destruct c as [st lf]. cbn [cstep] in *.
-    destruct st as [|st'].
-    + cbn [skipn chain_loop] in H.
-      destruct (chain_iter tag p (-1) 0) as [l e tl adv| |] eqn:Ei.
-      * cbn [chain_loop] in H. discriminate.
-      * injection H as <- <-. split; [lia|]. intros more. cbn [skipn cstep].
-        destruct (chain_loop [tag] (p ++ more) (-1) 0 0 0 0) as [[a b] d]. reflexivity.
-      * discriminate.
-    + assert (E : skipn (S st') [tag] = []) by (destruct st'; reflexivity).
-      rewrite E in H. cbn [chain_loop] in H. discriminate.
-  - intros c p r k c' H Hr more. unfold chain_step in *.
-    destruct c as [st lf]. cbn [cstep] in *.
-    destruct st as [|st'].
-    + cbn [skipn chain_loop] in *.
-      pose proof (chain_iter_ext tag p (-1) 0 more) as He.
-      destruct (chain_iter tag p (-1) 0) as [l e tl adv| |] eqn:Ei.
-      * rewrite He. cbn [chain_loop] in *. exact H.
-      * injection H as <- _ _. congruence.
-      * rewrite He. exact H.
-    + assert (E : skipn (S st') [tag] = []) by (destruct st'; reflexivity).
-      rewrite E in *. cbn [chain_loop] in *. exact H.
+  - intros c p k c' H. rewrite chain_step_from in H.
+    destruct (cstep c) as [|n] eqn:Ec.
+    + destruct (chain_from_more _ _ _ _ _ _ _ _ _ H) as (j & a & Hk & Ha & Hs & H0 & Hext).
+      cbn in Hk, Hs. subst k. split; [exact Ha|]. intros more.
+      rewrite !chain_step_from, Ec, Hext, Hs.
+      destruct j as [|j].
+      * destruct (H0 eq_refl) as (-> & -> & ->). cbn [skipn shift Nat.add].
+        destruct (chain_from tags (p ++ more) (-1) 0 0 0 0) as [[x y] z]. reflexivity.
+      * cbn [Nat.add]. rewrite (chain_from_shift _ _ _ _ _ _ a). reflexivity.
+    + destruct (chain_from_more _ _ _ _ _ _ _ _ _ H) as (j & a & Hk & Ha & Hs & _ & Hext).
+      cbn in Hk. subst k. split; [exact Ha|]. intros more.
+      rewrite !chain_step_from, Ec, Hext, Hs.
+      cbn [Nat.add]. rewrite <- skipn_add.
+      rewrite (chain_from_shift _ _ _ _ _ _ a). reflexivity.
+  - intros c p r k c' H Hr more. rewrite chain_step_from in *.
+    destruct (cstep c); eapply chain_from_final; eassumption.
 Qed.
+
+Corollary chain_chunk_independent tags input chunks :
+  chunking_of input chunks -> feed0 (chain_step tags) chain_ctx0 chunks = chain_step tags chain_ctx0 input.
+Proof. apply coherent_implies_chunk_independent. apply chain_coherent. Qed.
+
+(* the witnesses of finding C05-ber-tagchain-restart, now answered alike:
+   a5 80 | 30 80 a7 03 02 01 05 00 00 00 00 (valid BER, two end-of-contents pairs
+   are left for the caller however the input is cut), and
+   a5 80 | 30 05 a7 03 02 01 05 00 00 (definite inside indefinite: RC_FAIL both ways) *)
+Example chain_session :
+  chain_step u_tags chain_ctx0 [165; 128] = (MORE, 2%nat, {| cstep := 1; cleft := -1; cctx := 1 |}) /\
+  chain_step u_tags chain_ctx0 ([165; 128] ++ [48; 128; 167; 3; 2; 1; 5; 0; 0; 0; 0])
+    = (OK, 4%nat, {| cstep := 2; cleft := -2; cctx := 0 |}) /\
+  feed0 (chain_step u_tags) chain_ctx0 [[165; 128]; [48; 128; 167; 3; 2; 1; 5; 0; 0; 0; 0]]
+    = (OK, 4%nat, {| cstep := 2; cleft := -2; cctx := 0 |}) /\
+  chain_step u_tags chain_ctx0 ([165; 128] ++ [48; 5; 167; 3; 2; 1; 5; 0; 0])
+    = (FAIL, 2%nat, {| cstep := 1; cleft := -1; cctx := 1 |}) /\
+  feed0 (chain_step u_tags) chain_ctx0 [[165; 128]; [48; 5; 167; 3; 2; 1; 5; 0; 0]]
+    = (FAIL, 2%nat, {| cstep := 1; cleft := -1; cctx := 1 |}).
+Proof. repeat split; vm_compute; reflexivity. Qed.
